@@ -136,7 +136,16 @@ def _model_check(ctx, q):
     for m in wrong:
         jobs.append(("mut:" + m, lambda m=m: ctx.tlc("AgentWire_MC", cfg="AgentWire_%s.cfg" % m, workers=1, timeout=900, count=False,
                                                    expect_violation=True, note="deliberately wrong variant: must violate")))
+    if not q:
+        jobs.append(("cov", lambda: ctx.tlc("AgentWire_MC", cfg="AgentWire_MCq.cfg", workers=2, timeout=1500, coverage=True, count=False,
+                                            note="coverage run (vacuity)")))
     res = _parallel(jobs)
+    if "cov" in res:
+        # Enqueue exists only in the LateEnqueue variant, ReadFault only with Faults (AgentWire_Faults.cfg)
+        z = sorted(set(res["cov"].coverage_zero) - {"Enqueue", "ReadFault", "Init"})
+        ctx.extra["coverage_actions_never_taken"] = z
+        if z:
+            ctx.notes.append("actions never taken in the coverage run (vacuity): %s" % z)
     for k, r in sorted(res.items()):
         if k.startswith("mc:"):
             ctx.log("%s: %d distinct states" % (k, r.distinct))
@@ -165,7 +174,7 @@ def _server(ctx):
     for pair in (SRV_PAIRS_T if ctx.thorough else SRV_PAIRS_Q):
         txt = re.sub(r"GenKeys = .*", 'GenKeys = {"%s", "%s"}' % pair, base)
         gens.append(("w:%s+%s" % pair, lambda txt=txt, pair=pair: ctx.tlc_must_hold(
-            "AgentWireSrv", cfg_text=txt, workers=4, timeout=3000, heap="6g",
+            "AgentWireSrv", cfg_text=txt, workers=ctx.pick(8, 4), timeout=3000, heap="6g",
             note="server sessions over keys %s, %s: one witness per (agent state, last frame) transition" % pair)))
     if ctx.thorough:
         gens.append(("all2", lambda: ctx.tlc_must_hold("AgentWireSrv", cfg="AgentWireSrv_GenAll2.cfg", workers=4, timeout=3000,
@@ -193,7 +202,7 @@ def _server(ctx):
 def _recorded(ctx, want):
     tjobs = []
     if want("trace"):
-        tjobs.append(("conc", lambda: _record(ctx, "TestConcurrent", ctx.pick(24, 600))))
+        tjobs.append(("conc", lambda: _record(ctx, "TestConcurrent", ctx.pick(20, 450))))
     if want("forward"):
         tjobs.append(("fwd", lambda: _record(ctx, "TestForward", ctx.pick(3, 120))))
     tres = _parallel(tjobs)
